@@ -93,7 +93,7 @@ pub fn syst_err_count() {
     let mut out = alloc::vec::Vec::<u8>::new();
     let r = query!(SystErrCountCommand, d, out);
     let mut b = [0u8; 40];
-    let n = spec_dec(d0.q.len as i128, &mut b);
+    let n = spec_dec32(d0.q.len as i32, &mut b);
     assert!(r.is_ok() && bytes_eq(&out, &b[..n]), "C13/SystErrCountCommand::query/returns-number-of-unread-items");
     assert!(d == d0, "C13/SystErrCountCommand::query/changes-nothing");
 }
@@ -136,7 +136,7 @@ pub fn esr_and_opc() {
     let mut out = alloc::vec::Vec::<u8>::new();
     let r = query!(EsrCommand, d, out);
     let mut b = [0u8; 40];
-    let n = spec_dec(d0.esr as i128, &mut b);
+    let n = spec_dec32(d0.esr as i32, &mut b);
     assert!(r.is_ok() && bytes_eq(&out, &b[..n]), "C13/EsrCommand::query/returns-accumulated-status-bits");
     let mut exp = d0;
     exp.esr = 0;
